@@ -428,6 +428,63 @@ def run_rpc_level(seed: int, api: str, sign: bool, desc, name: str, acc) -> None
         acc.outcome("rpc-harmless")
 
 
+def run_stub_shapes(seed: int, acc) -> int:
+    """the request stub itself is varied (0, 1, 15, 16, 17 bytes; verification trailer on/off): whatever the caller sends, the request
+    leaves sealed and a reply is only accepted sealed - for every stub shape x {genuine, trailer stripped (own / attacker body), body flip, signature flip}"""
+    from checks import c13
+
+    n = 0
+    for api in ("sync", "async"):
+        for sign in (True, False):
+            for ln in (0, 1, 15, 16, 17):
+                for vt_name in ("off", "isd"):
+                    for alt in ("genuine", "strip:own", "strip:evil", "flip:body", "flip:sig", "strip:empty"):
+                        reply_plain = b"REPLY-PLAINTEXT-%02d" % ln
+                        peer = c13.Peer("scripted", 16, sign, reply_stub=reply_plain)
+                        orig_feed = peer.feed
+
+                        def feed(data, peer=peer, orig_feed=orig_feed, alt=alt):
+                            out = orig_feed(data)
+                            if rpc.decode(data)["ptype"] != rpc.REQUEST or alt == "genuine":
+                                return out
+                            sealed = out[0]
+                            if alt.startswith("strip"):
+                                body = {"own": peer.reply_body, "evil": b"ATTACKER-CHOSEN-STUB-BYTES-0123456", "empty": b""}[alt.split(":")[1]]
+                                hdr = bytearray(sealed[:24])
+                                hdr[10:12] = b"\x00\x00"
+                                hdr[16:20] = struct.pack("<I", len(body))
+                                return [fix_len(bytes(hdr) + body)]
+                            b = bytearray(sealed)
+                            b[24 if alt == "flip:body" else len(b) - 1] ^= 0x10
+                            return [bytes(b)]
+
+                        peer.feed = feed  # type: ignore[method-assign]
+                        case = ["stub-shape", api, sign, ln, vt_name, alt]
+                        stub = bytes(range(1, ln + 1))
+                        try:
+                            r, _ = c13.exchange(api, peer, stub, c13.vts()[vt_name], 0, 0)
+                            status = "ok"
+                        except (transport.BlocksForever, transport.Spin, vloop.Deadlock) as e:
+                            status, r = "blocked", e
+                        except Exception as e:  # noqa: BLE001
+                            status, r = "exc", e
+                        n += 1
+                        acc.nt(tuple(case))
+                        if len(peer.requests) == 1:
+                            d = rpc.decode(peer.requests[0], strict=False)
+                            if d["auth"] is None or d["auth"]["level"] != 6 or not isinstance(peer.unsealed[0] if peer.unsealed else None, (bytes, bytearray)):
+                                acc.violate("stub-shape.request-not-sealed", case, {"auth": None if d["auth"] is None else d["auth"]["level"]}, size=ln)
+                        if alt == "genuine":
+                            if status != "ok" or bytes(r.stub_data) != peer.reply_body:
+                                acc.violate("stub-shape.genuine-rejected", case, {"status": status, "detail": repr(r)[:200]}, size=ln)
+                            acc.outcome("stub-shape-genuine")
+                        elif status == "ok":
+                            acc.violate("stub-shape.altered-reply-accepted", case, {"returned": bytes(r.stub_data)[:40].hex()}, size=ln)
+                        else:
+                            acc.outcome("stub-shape-rejected")
+    return n
+
+
 class RogueConn(refdc.Conn):
     """a peer that does not hold the session key: strips the security trailer from its handshake replies (or never completes the
     handshake) and answers GetKey - sealed or not - with a cleartext envelope of its own"""
@@ -525,7 +582,7 @@ def run_rogue(seed: int, op: str, api: str, mode: str, sec: str, acc) -> None:
 
 
 def shards(tier: str, seed: int):
-    out = [["rogue"]]
+    out = [["rogue"], ["stub-shapes"]]
     for api in ("sync", "async"):
         for sg in (True, False):
             for part in range(4):
@@ -542,6 +599,10 @@ def shards(tier: str, seed: int):
 
 def run_shard(shard, tier, seed, acc) -> None:
     worker_init()
+    if shard[0] == "stub-shapes":
+        acc.ev(run_stub_shapes(seed, acc))
+        acc.sample({"request stub lengths": [0, 1, 15, 16, 17], "verification trailer": ["off", "isd"], "reply": ["genuine", "trailer stripped", "body flip", "signature flip"]})
+        return
     if shard[0] == "rogue":
         n = 0
         for op in ("protect", "unprotect"):
@@ -606,6 +667,14 @@ def replay(case, seed, acc) -> None:
     acc.ev()
     if case[0] == "rogue":
         run_rogue(seed, case[1], case[2], case[3], case[4], acc)
+        return
+    if case[0] == "stub-shape":
+        run_stub_shapes(seed, acc)
+        for k in list(acc.violations):
+            acc.violations[k] = [e for e in acc.violations[k] if e["case"] == case]
+            if not acc.violations[k]:
+                del acc.violations[k]
+        acc.violation_count = sum(len(v) for v in acc.violations.values())
         return
     if case[0] == "rpc":
         _, api, sg, name = case
